@@ -1,4 +1,5 @@
 import ScsiVerif.Lemmas.EncodeCompat
+import ScsiVerif.Lemmas.EncodeList
 import ScsiVerif.Model.Formats.Encode
 import ScsiVerif.Std.DataOut
 /-!
@@ -20,7 +21,7 @@ OUT (basic, SPEC_I_PT and REGISTER AND MOVE lists with TransportIDs) and EXTENDE
   descriptor counts and string lengths.
 -/
 namespace C05
-open Conv PVal Std DataCompat
+open Conv PVal Std DataCompat EncL
 
 /-- (standard block, library table) for every table a builder encodes with -/
 def pairs : List (Block × Layout) := [
@@ -64,5 +65,134 @@ theorem pad4_laws (n : Nat) : Enc.pad4Len n % 4 = 0 ∧ n + 1 ≤ Enc.pad4Len n 
   unfold Enc.pad4Len
   simp only
   split <;> omega
+
+/-! ## honest lengths: every embedded length field equals the number of bytes that follow -/
+
+theorem bind_ok {α β : Type} (a : α) (f : α → Except PyErr β) : (Except.ok a >>= f) = f a := rfl
+
+/-- REGISTER AND MOVE: the list is the 24-byte header followed by the TransportID, and the
+header's TRANSPORTID PARAMETER DATA LENGTH equals the number of bytes that follow — for every
+TransportID of any length. -/
+theorem prOut_ram_length_honest (d : PDict) (hk : Keys d) (tid r : Bytes)
+    (hr : InRange Gen.PersistentReserveOut_ram_parameter_list_bits
+      ((d.set "transportid_length" (.int tid.length)).filterMap (convEntry Gen.PersistentReserveOut_ram_parameter_list_bits)))
+    (he : Enc.prOutRamWith d tid = .ok r) :
+    ∃ hdr, r = hdr ++ tid ∧ hdr.length = 24 ∧ decodeMask hdr 0xFFFFFFFF 20 = tid.length := by
+  unfold Enc.prOutRamWith at he
+  cases h1 : encodeFrom (d.set "transportid_length" (.int tid.length)) Gen.PersistentReserveOut_ram_parameter_list_bits (zeros 24) with
+  | error e => rw [h1] at he; cases he
+  | ok hdr =>
+    rw [h1, bind_ok] at he
+    cases he
+    obtain ⟨hl, hf⟩ := field_after_set _ 24 (by decide +kernel) d hk "transportid_length" 0xFFFFFFFF 20 tid.length
+      (by decide +kernel) hdr h1 hr
+    exact ⟨hdr, rfl, hl, hf⟩
+
+
+theorem b2i_intToBa (n k : Nat) (h : n < 2 ^ (8 * k)) : baToInt (intToBa n k) = n := by
+  rw [baToInt_intToBa, Nat.mod_eq_of_lt h]
+
+/-- basic list with SPEC_I_PT: 28 header bytes, then the TransportIDs; bytes 24–27 (TRANSPORTID
+PARAMETER DATA LENGTH) hold the number of bytes that follow -/
+theorem prOut_spec_length_honest (d : PDict) (add r : Bytes) (hfit : add.length < 2 ^ 32)
+    (hr : InRange Gen.PersistentReserveOut_basic_parameter_list_bits
+      (d.filterMap (convEntry Gen.PersistentReserveOut_basic_parameter_list_bits)))
+    (he : Enc.prOutSpecWith d add = .ok r) :
+    ∃ hdr, r = hdr ++ add ∧ hdr.length = 28 ∧ baToInt (slice hdr 24 28) = add.length := by
+  unfold Enc.prOutSpecWith at he
+  cases h1 : encodeFrom d Gen.PersistentReserveOut_basic_parameter_list_bits (zeros 28) with
+  | error e => rw [h1] at he; cases he
+  | ok r0 =>
+    rw [h1, bind_ok] at he
+    cases he
+    have hl := encodeFrom_length _ 28 (by decide +kernel) d r0 h1 hr
+    obtain ⟨s1, s2⟩ := slice_setSlice r0 (intToBa add.length 4) 24 28 (by decide) (by omega) (by simp)
+    refine ⟨_, rfl, by rw [s2, hl], ?_⟩
+    rw [s1, b2i_intToBa _ 4 (by simpa using hfit)]
+
+/-- EXTENDED COPY: the header's three list lengths equal the lengths of the CSCD descriptor list,
+the segment descriptor list and the inline data that follow it, in that order — for every number
+and size of descriptors (both the LID1 and the LID4 header, `t.header`) -/
+theorem xcopy_lengths_honest (t : Enc.XTables) (hwf : t.header.wf t.headerLen = true)
+    (hdr : PDict) (hk : Keys hdr) (ts ss inline r : Bytes) (tlKey : String)
+    (m1 o1 m2 o2 m3 o3 : Nat)
+    (hg1 : layoutGet? t.header tlKey = some (.bits m1 o1))
+    (hg2 : layoutGet? t.header "segment_descriptor_list_length" = some (.bits m2 o2))
+    (hg3 : layoutGet? t.header "inline_data_length" = some (.bits m3 o3))
+    (hne1 : tlKey ≠ "segment_descriptor_list_length") (hne2 : tlKey ≠ "inline_data_length")
+    (hr : InRange t.header ((((hdr.set tlKey (.int ts.length)).set "segment_descriptor_list_length" (.int ss.length)).set
+      "inline_data_length" (.int inline.length)).filterMap (convEntry t.header)))
+    (he : Enc.xAssemble t hdr ts ss inline tlKey = .ok r) :
+    ∃ h, r = h ++ ts ++ ss ++ inline ∧ h.length = t.headerLen ∧
+      decodeMask h m1 o1 = ts.length ∧ decodeMask h m2 o2 = ss.length ∧ decodeMask h m3 o3 = inline.length := by
+  unfold Enc.xAssemble at he
+  simp only at he
+  cases h1 : encodeFrom (((hdr.set tlKey (.int ts.length)).set "segment_descriptor_list_length" (.int ss.length)).set
+      "inline_data_length" (.int inline.length)) t.header (zeros t.headerLen) with
+  | error e => rw [h1] at he; cases he
+  | ok h =>
+    rw [h1, bind_ok] at he
+    cases he
+    have hk3 := set_keys _ "inline_data_length" (.int inline.length)
+      (set_keys _ "segment_descriptor_list_length" (.int ss.length) (set_keys hdr tlKey (.int ts.length) hk))
+    have mem3 := set_mem ((hdr.set tlKey (.int ts.length)).set "segment_descriptor_list_length" (.int ss.length))
+      "inline_data_length" (.int inline.length)
+    have mem2 := set_mem_other _ "segment_descriptor_list_length" "inline_data_length" (.int ss.length) (.int inline.length)
+      (set_mem (hdr.set tlKey (.int ts.length)) "segment_descriptor_list_length" (.int ss.length)) (by decide)
+    have mem1 := set_mem_other _ tlKey "inline_data_length" (.int ts.length) (.int inline.length)
+      (set_mem_other _ tlKey "segment_descriptor_list_length" (.int ts.length) (.int ss.length)
+        (set_mem hdr tlKey (.int ts.length)) hne1) hne2
+    obtain ⟨hl, f1⟩ := field_of_mem t.header t.headerLen hwf _ hk3 tlKey m1 o1 ts.length hg1 mem1 h h1 hr
+    obtain ⟨_, f2⟩ := field_of_mem t.header t.headerLen hwf _ hk3 _ m2 o2 ss.length hg2 mem2 h h1 hr
+    obtain ⟨_, f3⟩ := field_of_mem t.header t.headerLen hwf _ hk3 _ m3 o3 inline.length hg3 mem3 h h1 hr
+    exact ⟨h, rfl, hl, f1, f2, f3⟩
+
+/-- the LID1 and LID4 headers meet the side conditions of `xcopy_lengths_honest` -/
+theorem xcopy_header_tables_ok :
+    (Enc.x4.header.wf Enc.x4.headerLen && Enc.x5.header.wf Enc.x5.headerLen) = true ∧
+    layoutGet? Enc.x4.header "target_descriptor_list_length" = some (.bits 0xFFFF 2) ∧
+    layoutGet? Enc.x4.header "segment_descriptor_list_length" = some (.bits 0xFFFFFFFF 8) ∧
+    layoutGet? Enc.x4.header "inline_data_length" = some (.bits 0xFFFFFFFF 12) ∧
+    layoutGet? Enc.x5.header "cscd_descriptor_list_length" = some (.bits 0xFFFF 42) ∧
+    layoutGet? Enc.x5.header "segment_descriptor_list_length" = some (.bits 0xFFFF 44) ∧
+    layoutGet? Enc.x5.header "inline_data_length" = some (.bits 0xFFFF 46) := by decide +kernel
+
+theorem slice_setSlice_before (x y : Bytes) (a b i j : Nat) (hj : j ≤ a) (ha : a ≤ x.length) :
+    slice (setSlice x a b y) i j = slice x i j := by
+  unfold setSlice slice
+  rw [List.append_assoc, List.take_append_of_le_length (by simp [List.length_take]; omega), List.take_take,
+    Nat.min_eq_left hj]
+
+/-- iSCSI TransportID: the buffer has room for the string and its terminator, its size is a
+multiple of four plus the 4-byte header, and ADDITIONAL LENGTH (bytes 2–3) is the number of bytes
+that follow it — for every string length -/
+theorem iscsi_transport_id_length_honest (d : PDict) (s : String) (r : Bytes)
+    (hascii : (Enc.strBytes s).length = s.length) (hfit : Enc.pad4Len s.length < 2 ^ 16)
+    (hr : InRange Gen.PersistentReserveInReadFullStatus_transport_id_bits
+      (d.filterMap (convEntry Gen.PersistentReserveInReadFullStatus_transport_id_bits)))
+    (hwf : Gen.PersistentReserveInReadFullStatus_transport_id_bits.wf (4 + Enc.pad4Len s.length) = true)
+    (he : Enc.transportIdIscsi d s = .ok r) :
+    r.length = 4 + Enc.pad4Len s.length ∧ (r.length - 4) % 4 = 0 ∧ s.length + 1 ≤ r.length - 4 ∧
+    baToInt (slice r 2 4) = r.length - 4 ∧ slice r 4 (s.length + 4) = Enc.strBytes s := by
+  unfold Enc.transportIdIscsi at he
+  cases h1 : encodeFrom d Gen.PersistentReserveInReadFullStatus_transport_id_bits (zeros (4 + Enc.pad4Len s.length)) with
+  | error e => rw [h1] at he; cases he
+  | ok r0 =>
+    rw [h1, bind_ok] at he
+    simp only [pure, Except.pure] at he
+    cases he
+    have hl := encodeFrom_length _ _ hwf d r0 h1 hr
+    obtain ⟨p1, p2, p3⟩ := pad4_laws s.length
+    obtain ⟨a1, a2⟩ := slice_setSlice r0 (intToBa (r0.length - 4) 2) 2 4 (by decide) (by omega) (by simp)
+    obtain ⟨b1, b2⟩ := slice_setSlice (setSlice r0 2 4 (intToBa (r0.length - 4) 2)) (Enc.strBytes s) 4 (s.length + 4)
+      (by omega) (by rw [a2, hl]; omega) (by rw [hascii]; omega)
+    have hlen : (setSlice (setSlice r0 2 4 (intToBa (r0.length - 4) 2)) 4 (s.length + 4) (Enc.strBytes s)).length
+        = 4 + Enc.pad4Len s.length := by rw [b2, a2, hl]
+    refine ⟨hlen, by rw [hlen]; omega, by rw [hlen]; omega, ?_, b1⟩
+    -- bytes 2–3 are untouched by the write of the name at 4…
+    have keep := slice_setSlice_before (setSlice r0 2 4 (intToBa (r0.length - 4) 2)) (Enc.strBytes s) 4 (s.length + 4) 2 4
+      (by decide) (by rw [a2, hl]; omega)
+    rw [keep, a1, hlen, hl, b2i_intToBa _ 2 (by simpa using (by omega : 4 + Enc.pad4Len s.length - 4 < 2 ^ 16))]
+
 
 end C05
